@@ -107,6 +107,12 @@ impl Ctx {
     pub fn mine(&self, i: u64) -> bool {
         i % self.nshards == self.shard
     }
+    /// like `mine`, for a handful of one-off cases: layers that run only a fraction of the shards (dev, A, D,
+    /// valgrind, ASan: scale < 1) run all of them in every shard, so that a failure that needs that layer
+    /// (overflow checks of a debug build, another back-end) cannot hide in a shard the layer never runs.
+    pub fn mine_few(&self, i: u64) -> bool {
+        self.mine(i) || self.scale < 1.0
+    }
     pub fn count(&mut self, name: &str) {
         *self.counters.entry(name.to_string()).or_insert(0) += 1;
     }
